@@ -94,7 +94,7 @@ func vBuild(thr float64, docs []vDoc) *Classifier {
 		// the classifier is already in use while its corpus grows: anything derived
 		// lazily from the corpus on first use must notice later additions
 		if i%97 == 5 {
-			c.Match(d.raw[:vMin(len(d.raw), 400)])
+			c.Match(vCap(d.raw[:vMin(len(d.raw), 400)], vCostCap(thr, true)))
 		}
 	}
 	return c
@@ -593,6 +593,18 @@ func vCostCap(thr float64, embedded bool) int {
 			return 300
 		case thr < 0.2:
 			return 1000
+		}
+	} else {
+		// small corpora: measured 449 s for ONE Match of a 2 500-byte license text
+		// against itself at threshold 0 (q = 1: every token occurrence is a candidate
+		// that is diffed against the whole document)
+		switch {
+		case thr < 0.005:
+			return 200
+		case thr < 0.05:
+			return 600
+		case thr < 0.2:
+			return 1500
 		}
 	}
 	if thr < 0.65 {
